@@ -5,7 +5,10 @@ use crate::transports::PacketReceiver;
 use anyhow::Result;
 use async_trait::async_trait;
 use bytes::Bytes;
+#[cfg(not(rustrtc_verif))]
 use parking_lot::{Mutex, RwLock};
+#[cfg(rustrtc_verif)]
+use {crate::verif::sync::Mutex, parking_lot::RwLock};
 use serde_json::json;
 use std::net::SocketAddr;
 use std::sync::atomic::{AtomicBool, AtomicU8, AtomicU32, AtomicU64, Ordering};
